@@ -280,8 +280,16 @@ func TestVerifC29(t *testing.T) {
 		posLists = append(posLists, []int32{0, 0}, []int32{1, 0, 1}, []int32{31, 31, 2})
 		nTargets = 4
 	}
-	maxLimit := 40
-	probe, repeats := 4, mc.Pick(64, 256)
+	// limits: all of 0..40 in the thorough tier; the quick tier keeps every boundary
+	// (0,1,2,3 around the conn/known split, odd/even, 29..32 around the cap of 30, 40)
+	var limits []int
+	for l := 0; l <= 40; l++ {
+		limits = append(limits, l)
+	}
+	if !mc.Thorough() {
+		limits = []int{0, 1, 2, 3, 4, 5, 6, 9, 10, 15, 16, 20, 29, 30, 31, 32, 39, 40}
+	}
+	probe, repeats := 3, mc.Pick(24, 256)
 
 	// Kad/addressbook worlds are immutable under onFindNode (checked below), so one
 	// instance per (shape, requester kind) is built lazily and shared by all
@@ -299,11 +307,11 @@ func TestVerifC29(t *testing.T) {
 	}
 
 	mc.Run(t, mc.Config{ID: "C29", Name: "C29-findnode-enum", MaxDev: -1, Params: map[string]interface{}{
-		"limit": fmt.Sprintf("0..%d", maxLimit), "pos_lists": posLists, "targets": nTargets, "peer_sets": shapeNames,
+		"limit": limits, "pos_lists": posLists, "targets": nTargets, "peer_sets": shapeNames,
 		"requests_per_execution": fmt.Sprintf("%d; %d when the replies differ (random selection inside the implementation)", probe, repeats), "requester": c29ReqNames, "allow_private_cidrs": []bool{false, true},
 		"underlays": "ip4 34.x (public) 10.x 192.168.x 172.16.x (private), ip6 2600:: (public) fd12:: (private)"}},
 		func(x *mc.X) {
-			limit := x.Choose(maxLimit + 1)
+			limit := limits[x.Choose(len(limits))]
 			pos := posLists[x.Choose(len(posLists))]
 			ti := x.Choose(nTargets)
 			allow := x.Choose(2) == 1
